@@ -126,11 +126,35 @@ def run(repo='/repo', gen_dir=None, seed=0, rlimit=30.0, threads=16, use_cache=T
 
 
 def run_uncached(repo, gen_dir, seed, rlimit, threads, verbose):
+    """One Verus run; when Verus stops before verification because of constructs it cannot take in some functions of this tree
+    (outside its dialect, or not compiling in the extracted form), those functions are re-extracted signature-only
+    (external_body, contract assumed) and Verus runs again, so that the rest of the crate is still decided. The functions left
+    out are recorded as `degraded`: every property they or their (transitive) callers serve is undecided (tool/verdict.py)."""
+    res = attempt(repo, gen_dir, seed, rlimit, threads, verbose, {})
+    forced = {}
+    for _round in range(3):
+        if not res.get('nothing_verified') or res.get('status') == 'extract-error':
+            break
+        fs = res.get('failures', [])
+        bad = [f for f in fs if not f.get('fn') or f['fn'].startswith('spec::')]
+        new = {f['fn']: f['message'][:160] for f in fs if f.get('fn') and not f['fn'].startswith('spec::') and f['fn'] not in forced}
+        if bad or not new:
+            break
+        forced.update(new)
+        res2 = attempt(repo, gen_dir, seed, rlimit, threads, verbose, forced)
+        res2['degraded_first_attempt'] = [{'fn': f.get('fn'), 'message': f['message'][:200]} for f in fs]
+        if res2.get('status') == 'extract-error':
+            break
+        res = res2
+    return res
+
+
+def attempt(repo, gen_dir, seed, rlimit, threads, verbose, force_external):
     t0 = time.time()
     res = {'status': 'ok', 'repo': repo, 'seed': seed, 'rlimit': rlimit}
     genfile = os.path.join(gen_dir, 'mp4_verus.rs')
     try:
-        ex = X.Extractor(repo, os.path.join(VERIF, 'contracts'), os.path.join(VERIF, 'prelude'), os.path.join(VERIF, 'spec'))
+        ex = X.Extractor(repo, os.path.join(VERIF, 'contracts'), os.path.join(VERIF, 'prelude'), os.path.join(VERIF, 'spec'), force_external=force_external)
         text = ex.run()
     except (X.ExtractError, X.ContractError, X.LexError, AssertionError, StopIteration, IndexError) as e:
         res['status'] = 'extract-error'
